@@ -1,4 +1,5 @@
 import ITree.Model.Map
+import ITree.Model.Lists
 /-!
 # Executable well-formedness checks
 
@@ -39,5 +40,11 @@ def slotsCheck (t : T ε) (p : Pool) : Bool :=
 
 def St.wfCheck (st : St V) : Bool :=
   st.tree.orderedCheck && st.tree.balCheck.isSome && slotsCheck st.tree st.pool
+
+/-- the buffer of a list variant is strictly sorted by key -/
+def sortedCheck (l : List (Ent V)) : Bool := strictlyIncreasing (l.map (·.key))
+
+/-- the cached earliest expiration of `KeyExpList` is a lower bound of the stored expirations -/
+def KL.invCheck (s : KL V) : Bool := s.buf.all fun e => decide (s.minExp ≤ e.exp)
 
 end ITree
